@@ -194,7 +194,8 @@ func randBytes(r *rand.Rand, n int) []byte {
 	for i := range b {
 		switch r.Intn(6) {
 		case 0:
-			b[i] = "\n [ ]:0123456789-+/"[r.Intn(20)]
+			const special = "\n [ ]:0123456789-+/"
+			b[i] = special[r.Intn(len(special))]
 		default:
 			b[i] = byte(r.Intn(256))
 		}
@@ -428,7 +429,8 @@ func randHeaderString(r *rand.Rand) string {
 			if r.Intn(8) == 0 {
 				b[i] = byte(r.Intn(256))
 			} else {
-				b[i] = "[]: ab\t"[r.Intn(7)]
+				const hdrAlphabet = "[]: ab\t"
+				b[i] = hdrAlphabet[r.Intn(len(hdrAlphabet))]
 			}
 		}
 		return string(b)
@@ -461,7 +463,8 @@ func randMpPath(r *rand.Rand) string {
 			if r.Intn(10) == 0 {
 				b[i] = byte(r.Intn(256))
 			} else {
-				b[i] = ".[]sourcetp0-1 "[r.Intn(15)]
+				const pathAlphabet = ".[]sourcetp0-1 "
+				b[i] = pathAlphabet[r.Intn(len(pathAlphabet))]
 			}
 		}
 		return string(b)
@@ -488,7 +491,8 @@ func randTagString(r *rand.Rand) string {
 			if r.Intn(12) == 0 {
 				b[i] = byte(r.Intn(256))
 			} else {
-				b[i] = "${}:#aC13_ /"[r.Intn(12)]
+				const tagAlphabet = "${}:#aC13_ /"
+				b[i] = tagAlphabet[r.Intn(len(tagAlphabet))]
 			}
 		}
 		return string(b)
